@@ -8,6 +8,8 @@ From Coq Require Import List Arith Lia Bool Permutation.
 Import ListNotations.
 From Sodium Require Import Engine EngineScript EngineSafe EngineFuel EngineLog.
 
+Section Poly.
+Context {Val : Type}.
 (* ---------------- lists and graphs ---------------- *)
 Lemma map_nth_seq {A} (l : list A) d : map (fun n => nth n l d) (seq 0 (length l)) = l.
 Proof.
@@ -15,63 +17,63 @@ Proof.
   rewrite <- seq_shift, map_map. exact IH.
 Qed.
 
-Lemma map_get_seq {A} (f : node -> A) gr : map f gr = map (fun n => f (get gr n)) (seq 0 (length gr)).
+Lemma map_get_seq {A} (f : node Val -> A) (gr : graph Val) : map f gr = map (fun n => f (get gr n)) (seq 0 (length gr)).
 Proof.
   rewrite <- (map_map (get gr) f). unfold get. rewrite map_nth_seq. reflexivity.
 Qed.
 
-Lemma graph_ext (a b : graph) : length a = length b -> (forall n, n < length a -> get a n = get b n) -> a = b.
+Lemma graph_ext (a b : graph Val) : length a = length b -> (forall n, n < length a -> get a n = get b n) -> a = b.
 Proof.
   intros L H. unfold get in H. eapply nth_ext; eauto.
 Qed.
 
-Lemma set_out gr n x : length gr <= n -> set gr n x = gr.
+Lemma set_out (gr : graph Val) n x : length gr <= n -> set gr n x = gr.
 Proof.
   revert n; induction gr as [|y t IH]; intros [|k] H; simpl in *; auto; try lia. rewrite IH; auto; lia.
 Qed.
 
-Lemma get_default gr n : length gr <= n ->
+Lemma get_default (gr : graph Val) n : length gr <= n ->
   get gr n = {| deps := []; dependents := []; visited := true; done := true; changed := false; fire := None |}.
 Proof. intros H. unfold get. apply nth_overflow. exact H. Qed.
 
-Lemma get_app_l gr l n : n < length gr -> get (gr ++ l) n = get gr n.
+Lemma get_app_l (gr : graph Val) l n : n < length gr -> get (gr ++ l) n = get gr n.
 Proof. intros H. unfold get. apply app_nth1. exact H. Qed.
 
-Lemma get_app_new gr x : get (gr ++ [x]) (length gr) = x.
+Lemma get_app_new (gr : graph Val) x : get (gr ++ [x]) (length gr) = x.
 Proof. unfold get. rewrite app_nth2 by lia. rewrite Nat.sub_diag. reflexivity. Qed.
 
 Lemma existsb_map {A B} (f : A -> B) (p : B -> bool) l : existsb p (map f l) = existsb (fun x => p (f x)) l.
 Proof. induction l as [|x l IH]; simpl; auto. rewrite IH. reflexivity. Qed.
 
 (* ---------------- well-formed graphs ---------------- *)
-Definition rest (x : node) := visited x = false /\ done x = false /\ changed x = false /\ fire x = None.
-Definition at_rest (gr : graph) := forall n, n < length gr -> rest (get gr n).
-Definition deps_in_range (gr : graph) := forall n d, In d (deps (get gr n)) -> d < length gr.
-Definition dependents_in_range (gr : graph) := forall n m, In m (dependents (get gr n)) -> m < length gr.
+Definition rest (x : node Val) := visited x = false /\ done x = false /\ changed x = false /\ fire x = None.
+Definition at_rest (gr : graph Val) := forall n, n < length gr -> rest (get gr n).
+Definition deps_in_range (gr : graph Val) := forall n d, In d (deps (get gr n)) -> d < length gr.
+Definition dependents_in_range (gr : graph Val) := forall n m, In m (dependents (get gr n)) -> m < length gr.
 (* every dependency edge is registered in the dependents list of its target *)
-Definition complete (gr : graph) := forall n d, In d (deps (get gr n)) -> In n (dependents (get gr d)).
-Definition wf (gr : graph) := at_rest gr /\ deps_in_range gr /\ dependents_in_range gr /\ complete gr.
+Definition complete (gr : graph Val) := forall n d, In d (deps (get gr n)) -> In n (dependents (get gr d)).
+Definition wf (gr : graph Val) := at_rest gr /\ deps_in_range gr /\ dependents_in_range gr /\ complete gr.
 (* acyclic, as witnessed by a rank function (which may as well be bounded by the number of nodes) *)
-Definition ranked (gr : graph) :=
+Definition ranked (gr : graph Val) :=
   exists rank : nat -> nat, forall n d, In d (deps (get gr n)) -> rank d < rank n.
-Definition ranked_b (gr : graph) :=
+Definition ranked_b (gr : graph Val) :=
   exists rank : nat -> nat, (forall n d, In d (deps (get gr n)) -> rank d < rank n) /\
                             (forall n, n < length gr -> rank n < length gr).
 (* a firing list: distinct source nodes with their values *)
-Definition sources (gr : graph) (fs : list (nat * nat)) :=
+Definition sources (gr : graph Val) (fs : list (nat * Val)) :=
   NoDup (map fst fs) /\ forall n v, In (n, v) fs -> n < length gr /\ deps (get gr n) = [].
 
-Definition cln (x : node) : node :=
+Definition cln (x : node Val) : node Val :=
   {| deps := deps x; dependents := dependents x; visited := false; done := false; changed := false; fire := None |}.
 
-Lemma get_cleanup gr n : n < length gr -> get (cleanup gr) n = cln (get gr n).
+Lemma get_cleanup (gr : graph Val) n : n < length gr -> get (cleanup gr) n = cln (get gr n).
 Proof.
   intros Hn. change (cleanup gr) with (map cln gr). unfold get.
   rewrite (nth_indep (map cln gr) _ (cln (get gr 0))) by (rewrite map_length; auto).
   rewrite map_nth. f_equal. apply nth_indep. exact Hn.
 Qed.
 
-Lemma at_rest_cleanup gr : at_rest gr -> cleanup gr = gr.
+Lemma at_rest_cleanup (gr : graph Val) : at_rest gr -> cleanup gr = gr.
 Proof.
   intros R. apply graph_ext; [unfold cleanup; apply map_length|].
   intros n Hn. unfold cleanup in Hn. rewrite map_length in Hn. rewrite get_cleanup by auto.
@@ -79,10 +81,10 @@ Proof.
 Qed.
 
 (* ---------------- the denotation ---------------- *)
-Definition lookup (fs : list (nat * nat)) (n : nat) : option nat :=
+Definition lookup (fs : list (nat * Val)) (n : nat) : option Val :=
   match find (fun nv => Nat.eqb (fst nv) n) fs with Some nv => Some (snd nv) | None => None end.
 
-Fixpoint denf (F : rule) (fuel : nat) (gr : graph) (fs : list (nat * nat)) (n : nat) : option nat :=
+Fixpoint denf (F : rule Val) (fuel : nat) (gr : graph Val) (fs : list (nat * Val)) (n : nat) : option Val :=
   match fuel with 0 => None | S f =>
     match deps (get gr n) with
     | [] => lookup fs n
@@ -90,8 +92,6 @@ Fixpoint denf (F : rule) (fuel : nat) (gr : graph) (fs : list (nat * nat)) (n : 
     end
   end.
 
-(* the value node n fires in a transaction that sends fs, None if it does not fire *)
-Definition den (gr : graph) (fs : list (nat * nat)) (n : nat) : option nat := denf Fmix (S (length gr)) gr fs n.
 
 Lemma lookup_cons m v fs n : lookup ((m, v) :: fs) n = if Nat.eqb m n then Some v else lookup fs n.
 Proof. unfold lookup. simpl. destruct (Nat.eqb m n); reflexivity. Qed.
@@ -131,7 +131,7 @@ Proof.
 Qed.
 
 (* the denotation reads nothing but the dependency lists *)
-Lemma denf_deps_only F f gr gr' fs fs' :
+Lemma denf_deps_only (F : rule Val) f (gr gr' : graph Val) (fs fs' : list (nat * Val)) :
   (forall n, deps (get gr' n) = deps (get gr n)) -> (forall n, lookup fs' n = lookup fs n) ->
   forall n, denf F f gr' fs' n = denf F f gr fs n.
 Proof.
@@ -140,7 +140,7 @@ Proof.
   cbv zeta. rewrite (map_ext _ _ IH). reflexivity.
 Qed.
 
-Lemma denf_stable F gr fs (rank : nat -> nat) :
+Lemma denf_stable (F : rule Val) (gr : graph Val) (fs : list (nat * Val)) (rank : nat -> nat) :
   (forall n d, In d (deps (get gr n)) -> rank d < rank n) ->
   forall f1 f2 n, rank n < f1 -> rank n < f2 -> denf F f1 gr fs n = denf F f2 gr fs n.
 Proof.
@@ -152,14 +152,14 @@ Proof.
 Qed.
 
 (* ---------------- one transaction ---------------- *)
-Definition fired (x : node) (v : nat) : node :=
+Definition fired (x : node Val) (v : Val) : node Val :=
   {| deps := deps x; dependents := dependents x; visited := visited x; done := done x; changed := true; fire := Some v |}.
-Definition fire_all (fs : list (nat * nat)) (gr : graph) : graph :=
+Definition fire_all (fs : list (nat * Val)) (gr : graph Val) : graph Val :=
   fold_left (fun g nv => fire_source g (fst nv) (snd nv)) fs gr.
 
 Arguments fire_all : simpl never.
 
-Lemma fire_all_spec fs : forall gr, NoDup (map fst fs) -> (forall n v, In (n, v) fs -> n < length gr) ->
+Lemma fire_all_spec (fs : list (nat * Val)) : forall gr : graph Val, NoDup (map fst fs) -> (forall n v, In (n, v) fs -> n < length gr) ->
   length (fire_all fs gr) = length gr /\
   forall n, get (fire_all fs gr) n = match lookup fs n with Some v => fired (get gr n) v | None => get gr n end.
 Proof.
@@ -177,18 +177,18 @@ Proof.
     + unfold fire_source. rewrite get_set_other by auto. reflexivity.
 Qed.
 
-Definition Dof (gr : graph) (n : nat) : list nat := deps (get gr n).
-Definition Dtsof (gr : graph) (n : nat) : list nat := dependents (get gr n).
+Definition Dof (gr : graph Val) (n : nat) : list nat := deps (get gr n).
+Definition Dtsof (gr : graph Val) (n : nat) : list nat := dependents (get gr n).
 
-Lemma cln_rest x y : rest y -> deps x = deps y -> dependents x = dependents y -> cln x = y.
+Lemma cln_rest (x y : node Val) : rest y -> deps x = deps y -> dependents x = dependents y -> cln x = y.
 Proof.
   intros (A & B & C & E) H1 H2. unfold cln. rewrite H1, H2. destruct y; simpl in *; subst. reflexivity.
 Qed.
 
 Section Txn.
-  Variable F : rule.
-  Variable gr : graph.
-  Variable fs : list (nat * nat).
+  Variable F : rule Val.
+  Variable gr : graph Val.
+  Variable fs : list (nat * Val).
   Variable rank : nat -> nat.
   Hypothesis Hwf : wf gr.
   Hypothesis rank_ok : forall n d, In d (deps (get gr n)) -> rank d < rank n.
@@ -197,7 +197,7 @@ Section Txn.
 
   Local Notation N := (length gr).
   Local Notation gr1 := (fire_all fs gr).
-  Definition init_st : st := {| g := fire_all fs gr; queue := map fst fs; log := [] |}.
+  Definition init_st : st Val := {| g := fire_all fs gr; queue := map fst fs; log := [] |}.
 
   Lemma txn_D_range : forall n d, In d (Dof gr n) -> d < N.
   Proof. destruct Hwf as (_ & A & _). exact A. Qed.
@@ -246,7 +246,7 @@ Section Txn.
   Qed.
 
   (* a fixpoint over the fired sources is the denotation *)
-  Lemma fixpoint_is_den gr' :
+  Lemma fixpoint_is_den (gr' : graph Val) :
     Fixpoint_ok F (Dof gr) N gr' ->
     (forall n, n < N -> Dof gr n = [] -> fire (get gr' n) = lookup fs n /\ changed (get gr' n) = is_some (lookup fs n)) ->
     forall n, n < N ->
@@ -309,12 +309,12 @@ Section Txn.
 End Txn.
 
 (* ---------------- any rank function can be compressed below the number of nodes ---------------- *)
-Fixpoint hf (gr : graph) (fuel n : nat) : nat :=
+Fixpoint hf (gr : graph Val) (fuel n : nat) : nat :=
   match fuel with 0 => 0 | S f =>
     match deps (get gr n) with [] => 0 | ds => S (list_max (map (hf gr f) ds)) end
   end.
 
-Lemma hf_stable gr (rank : nat -> nat) :
+Lemma hf_stable (gr : graph Val) (rank : nat -> nat) :
   (forall n d, In d (deps (get gr n)) -> rank d < rank n) ->
   forall f1 f2 n, rank n < f1 -> rank n < f2 -> hf gr f1 n = hf gr f2 n.
 Proof.
@@ -340,7 +340,7 @@ Proof.
   rewrite Forall_forall in Fa. apply Fa; auto.
 Qed.
 
-Lemma ranked_bounded gr : ranked gr -> deps_in_range gr -> ranked_b gr.
+Lemma ranked_bounded (gr : graph Val) : ranked gr -> deps_in_range gr -> ranked_b gr.
 Proof.
   intros [rank RK] DR. exists (fun n => hf gr (S (rank n)) n).
   assert (Step : forall n d, In d (deps (get gr n)) -> hf gr (S (rank d)) d < hf gr (S (rank n)) n).
@@ -373,16 +373,21 @@ Proof.
   assert (Inc : incl l (seq 0 (length gr))) by (intros x Hx; apply in_seq; apply El in Hx; lia).
   pose proof (NoDup_incl_length NDl Inc) as Le. rewrite seq_length in Le. lia.
 Qed.
+End Poly.
+Arguments fire_all : simpl never.
+
+(* the value node n fires in a transaction that sends fs, None if it does not fire *)
+Definition den (gr : graph nat) (fs : list (nat * nat)) (n : nat) : option nat := denf Fmix (S (length gr)) gr fs n.
 
 (* ---------------- C03 for EngineScript.estep ---------------- *)
-Lemma in_range_spec gr l : in_range gr l = true <-> forall d, In d l -> d < length gr.
+Lemma in_range_spec {Val} (gr : graph Val) l : in_range gr l = true <-> forall d, In d l -> d < length gr.
 Proof.
   unfold in_range. rewrite forallb_forall. split; intros H d Hd; specialize (H d Hd); [apply Nat.ltb_lt|apply Nat.ltb_lt]; auto.
 Qed.
 
 (* the update log of a transaction, oldest first: every node is updated at most once, exactly the
    derived nodes one of whose dependencies fires, and never before one of its dependencies *)
-Definition once_spec (gr : graph) (fs : list (nat * nat)) (lg : list nat) :=
+Definition once_spec (gr : graph nat) (fs : list (nat * nat)) (lg : list nat) :=
   NoDup lg /\
   (forall n, In n lg <-> (n < length gr /\ deps (get gr n) <> [] /\
                           exists d, In d (deps (get gr n)) /\ den gr fs d <> None)) /\
@@ -472,7 +477,7 @@ Proof.
 Qed.
 
 (* the special case asked for: the same graph with every dependents list permuted *)
-Lemma wf_perm_dependents gr gr2 :
+Lemma wf_perm_dependents (gr gr2 : graph nat) :
   wf gr -> at_rest gr2 -> map deps gr2 = map deps gr ->
   (forall n, Permutation (dependents (get gr2 n)) (dependents (get gr n))) -> wf gr2.
 Proof.
@@ -505,20 +510,20 @@ Print Assumptions den_unfold.
 Print Assumptions C03_dependents_order_independent.
 
 (* ---------------- building graphs: ENode and EAddDep keep the hypotheses ---------------- *)
-Definition with_dependent (x : node) (n : nat) : node :=
+Definition with_dependent (x : node nat) (n : nat) : node nat :=
   {| deps := deps x; dependents := dependents x ++ [n]; visited := visited x; done := done x;
      changed := changed x; fire := fire x |}.
 (* equal up to the dependents list *)
-Definition same_but_dependents (x y : node) :=
+Definition same_but_dependents (x y : node nat) :=
   deps x = deps y /\ visited x = visited y /\ done x = done y /\ changed x = changed y /\ fire x = fire y.
 
-Lemma add_dependent_get g d n k : d < length g ->
+Lemma add_dependent_get (g : graph nat) d n k : d < length g ->
   get (add_dependent g d n) k = if Nat.eqb d k then with_dependent (get g d) n else get g k.
 Proof.
   intros H. unfold add_dependent. destruct (Nat.eqb_spec d k) as [->|Ne]; [rewrite get_set_same | rewrite get_set_other]; auto.
 Qed.
 
-Lemma add_dependents_spec n ds : forall g0, (forall d, In d ds -> d < length g0) ->
+Lemma add_dependents_spec n ds : forall g0 : graph nat, (forall d, In d ds -> d < length g0) ->
   length (fold_left (fun g d => add_dependent g d n) ds g0) = length g0 /\
   forall k, same_but_dependents (get (fold_left (fun g d => add_dependent g d n) ds g0) k) (get g0 k) /\
             forall j, In j (dependents (get (fold_left (fun g d => add_dependent g d n) ds g0) k)) <->
@@ -541,9 +546,9 @@ Proof.
       * intuition.
 Qed.
 
-Definition dflt : node := {| deps := []; dependents := []; visited := true; done := true; changed := false; fire := None |}.
+Definition dflt : node nat := {| deps := []; dependents := []; visited := true; done := true; changed := false; fire := None |}.
 
-Lemma get_snoc_cases gr x k :
+Lemma get_snoc_cases (gr : graph nat) x k :
   (k < length gr /\ get (gr ++ [x]) k = get gr k) \/
   (k = length gr /\ get (gr ++ [x]) k = x) \/
   (length gr < k /\ get (gr ++ [x]) k = dflt).
@@ -554,7 +559,7 @@ Proof.
   - right; right. split; auto. apply get_default. rewrite app_length. simpl. lia.
 Qed.
 
-Definition new_node (gr : graph) (ds : list nat) : graph :=
+Definition new_node (gr : graph nat) (ds : list nat) : graph nat :=
   fold_left (fun g d => add_dependent g d (length gr)) ds (gr ++ [mknode ds]).
 
 Lemma estep_ENode o gr ds : estep o gr (ENode ds) = if in_range gr ds then (new_node gr ds, None) else (gr, None).
@@ -562,7 +567,7 @@ Proof. reflexivity. Qed.
 Lemma estep_EAddDep o gr n m : estep o gr (EAddDep n m) = if in_range gr [n; m] then (add_dep gr n m, None) else (gr, None).
 Proof. reflexivity. Qed.
 
-Lemma new_node_spec gr ds : in_range gr ds = true ->
+Lemma new_node_spec (gr : graph nat) ds : in_range gr ds = true ->
   length (new_node gr ds) = S (length gr) /\
   forall k, same_but_dependents (get (new_node gr ds) k) (get (gr ++ [mknode ds]) k) /\
             forall j, In j (dependents (get (new_node gr ds) k)) <->
@@ -574,7 +579,7 @@ Proof.
   split; [unfold new_node; rewrite L, app_length; simpl; lia | exact G].
 Qed.
 
-Theorem wf_ENode gr ds : wf gr -> in_range gr ds = true -> wf (new_node gr ds).
+Theorem wf_ENode (gr : graph nat) ds : wf gr -> in_range gr ds = true -> wf (new_node gr ds).
 Proof.
   intros (R & DR & TR & C) IR. destruct (new_node_spec gr ds IR) as [L G]. rewrite in_range_spec in IR.
   split; [|split; [|split]].
@@ -597,7 +602,7 @@ Proof.
     + intros [].
 Qed.
 
-Theorem ranked_ENode gr ds : wf gr -> in_range gr ds = true -> ranked gr -> ranked (new_node gr ds).
+Theorem ranked_ENode (gr : graph nat) ds : wf gr -> in_range gr ds = true -> ranked gr -> ranked (new_node gr ds).
 Proof.
   intros (_ & DR & _) IR [rank RK]. destruct (new_node_spec gr ds IR) as [L G]. rewrite in_range_spec in IR.
   exists (fun k => if Nat.eqb k (length gr) then S (list_max (map rank ds)) else rank k).
@@ -611,7 +616,7 @@ Proof.
   - intros [].
 Qed.
 
-Lemma add_dep_spec gr n m : n < length gr -> m < length gr ->
+Lemma add_dep_spec (gr : graph nat) n m : n < length gr -> m < length gr ->
   length (add_dep gr n m) = length gr /\
   forall k, deps (get (add_dep gr n m) k) = (if Nat.eqb n k then deps (get gr k) ++ [m] else deps (get gr k)) /\
             dependents (get (add_dep gr n m) k) = (if Nat.eqb m k then dependents (get gr k) ++ [n] else dependents (get gr k)) /\
@@ -624,7 +629,7 @@ Proof.
     repeat first [rewrite get_set_same by auto | rewrite get_set_other by auto]; simpl; auto 10.
 Qed.
 
-Theorem wf_EAddDep gr n m : wf gr -> in_range gr [n; m] = true -> wf (add_dep gr n m).
+Theorem wf_EAddDep (gr : graph nat) n m : wf gr -> in_range gr [n; m] = true -> wf (add_dep gr n m).
 Proof.
   intros (R & DR & TR & C) IR. rewrite in_range_spec in IR.
   assert (Hn : n < length gr) by (apply IR; simpl; auto).
@@ -645,7 +650,7 @@ Proof.
 Qed.
 
 (* a new edge that respects some rank function of the graph keeps it ranked *)
-Theorem ranked_EAddDep gr n m (rank : nat -> nat) : in_range gr [n; m] = true ->
+Theorem ranked_EAddDep (gr : graph nat) n m (rank : nat -> nat) : in_range gr [n; m] = true ->
   (forall k d, In d (deps (get gr k)) -> rank d < rank k) -> rank m < rank n -> ranked (add_dep gr n m).
 Proof.
   intros IR RK Hr. rewrite in_range_spec in IR.
@@ -676,10 +681,10 @@ Proof.
   - rewrite estep_EAddDep. destruct (in_range gr [n; m]) eqn:IR; simpl; auto.
 Qed.
 
-Definition run_script (orig : bool) (gr : graph) (ops : list eop) : graph :=
+Definition run_script (orig : bool) (gr : graph nat) (ops : list eop) : graph nat :=
   fold_left (fun g op => fst (estep orig g op)) ops gr.
 
-Lemma wf_nil : wf [].
+Lemma wf_nil : wf ([] : graph nat).
 Proof.
   split; [intros n Hn; simpl in Hn; lia|]. split; [|split]; intros n d; rewrite get_default by (simpl; lia); intros [].
 Qed.
@@ -698,7 +703,7 @@ Print Assumptions ranked_EAddDep.
 (* s1=0 s2=1 x1=2(s1) x2=3(s2) d=4(x1,x2) n=5(s2) and then n.add_dependency(d): the shape of finding D1 *)
 Definition ex_ops : list eop :=
   [ENode []; ENode []; ENode [0]; ENode [1]; ENode [2; 3]; ENode [1]; EAddDep 5 4].
-Definition Gex : graph := run_script false [] ex_ops.
+Definition Gex : graph nat := run_script false [] ex_ops.
 Definition ex_fs : list (nat * nat) := [(0, 1); (1, 2)].
 
 Lemma Gex_eq : Gex =
